@@ -17,3 +17,18 @@ with open(os.path.join(VERIF, "sa", "tables", "known_functions.txt"), "w") as f:
     for n in sorted(names):
         f.write(n + "\n")
 print(len(names), "functions")
+
+fields = set()
+for cfg in ("dev", "rel", "docs"):
+    d, sha, dt, cached = ex.extract(cfg)
+    for f in glob.glob(os.path.join(d, "*.json")):
+        for a in json.load(open(f))["adts"]:
+            for v in a["variants"]:
+                for fl in v["fields"]:
+                    fields.add("%s::%s" % (a["path"], fl["name"]))
+with open(os.path.join(VERIF, "sa", "tables", "known_fields.txt"), "w") as f:
+    f.write("# fields of the data types of /repo at %s: a field of a clap argument struct that is NOT listed here is an\n" % head)
+    f.write("# option the rules do not know; Option<_> / bool ones are taken at their default (sa/lib/specialize.py)\n")
+    for n in sorted(fields):
+        f.write(n + "\n")
+print(len(fields), "fields")
